@@ -126,6 +126,70 @@ Theorem C19_describe_tells_obs :
 Proof. exact describe_tells_obs. Qed.
 Print Assumptions C19_describe_tells_obs.
 
+(* ---- submodule graphs (YANG 1.0 injected includes, includes between submodules) ---- *)
+
+(* The includes array of a module as lysp_load_submodules builds it (the order of the feature arrays in the context
+   and in the description; /repo commit 272016c): it holds exactly the submodules of the include closure of the
+   module, each once; refused graphs only in YANG 1.1. *)
+Theorem C19_includes_array_is_closure :
+  forall incs v11, wf_incs incs -> NoDup (inc_of incs O) ->
+    match includes_order v11 incs with
+    | Ok l => NoDup l /\ (forall j, In j l <-> sreach incs j)
+    | Err _ => v11 = true
+    end.
+Proof.
+  intros incs v11 Hwf Hnd. pose proof (includes_order_spec incs Hwf false v11 Hnd) as H.
+  change (includes_order v11 incs) with (includes_order_gen false v11 incs).
+  destruct (includes_order_gen false v11 incs) as [l|e]; [|exact H].
+  destruct H as (H1 & H2 & H3). split; [exact H1|]. intros j. split; [apply H2|apply H3; reflexivity].
+Qed.
+Print Assumptions C19_includes_array_is_closure.
+
+(* Full strength: the feature leaf-list of the description (ylib_feature over the includes array, injected includes
+   too) lists EVERY enabled feature of the module and of the submodules of its include closure, nothing else, and
+   each exactly once (feature names are distinct within a module; the parser checks that).
+   History: refuted for the code before 272016c (C19_former_sub_skip_witness). *)
+Theorem C19_description_lists_closure_features :
+  forall incs gs v11, wf_incs incs -> NoDup (inc_of incs O) -> NoDup (map f_name (concat gs)) ->
+    match includes_order v11 incs with
+    | Ok order =>
+        NoDup (listed_features gs order) /\
+        (forall x, In x (listed_features gs order) <->
+           exists k f, (k = O \/ sreach incs k) /\ In f (nth k gs []) /\ f_en f = true /\ f_name f = x)
+    | Err _ => v11 = true
+    end.
+Proof.
+  intros incs gs v11 Hwf Hnd Hn. pose proof (listed_features_spec incs gs false v11 Hwf Hnd Hn) as H.
+  change (includes_order v11 incs) with (includes_order_gen false v11 incs).
+  destruct (includes_order_gen false v11 incs) as [order|e]; [|exact H].
+  destruct H as (H1 & H2 & H3). split; [exact H1|]. intros x. split; [apply H2|].
+  intros (k & f & Hk & Hin & Hen & <-). apply (H3 eq_refl k f Hk Hin Hen).
+Qed.
+Print Assumptions C19_description_lists_closure_features.
+
+(* regression: the former refutation witness (module includes s1, s2; s2 includes s1 and s3).  The model of the
+   former code stops the include loop of s2 at s1 and leaves s3 out (array 1 2, feature d of s3 not listed); the
+   code now gives the array 1 2 3 and lists d (both confirmed on the library). *)
+Example C19_former_sub_skip_witness :
+  let incs := [[1; 2]; []; [1; 3]; []]%nat in
+  let gs := [[mkfeat [97] true]; [mkfeat [98] true]; [mkfeat [99] true]; [mkfeat [100] true]] in
+  includes_order false incs = Ok [1; 2; 3]%nat /\ In [100] (listed_features gs [1; 2; 3]%nat) /\
+  includes_order_gen true false incs = Ok [1; 2]%nat /\ ~ In [100] (listed_features gs [1; 2]%nat) /\ sreach incs 3.
+Proof.
+  destruct sub_skip_witness as (H1 & H2 & H3 & _).
+  split; [exact H2|]. split; [vm_compute; auto 10|]. split; [exact H1|]. split; [|exact H3].
+  vm_compute. intros [H|[H|[H|[]]]]; discriminate.
+Qed.
+
+(* the order of injected includes (confirmed on the library): chain m -> s1 -> s2 -> s3 gives s1 s3 s2, the diamond
+   s1 s2 s3; YANG 1.1 refuses an include that the module lacks and keeps the order of the module *)
+Example C19_includes_order_examples :
+  includes_order false [[1]; [2]; [3]; []]%nat = Ok [1; 3; 2]%nat /\
+  includes_order false [[1; 2]; [3]; [3]; []]%nat = Ok [1; 2; 3]%nat /\
+  includes_order true [[1]; [2]; [3]; []]%nat = Err E_SUB11 /\
+  includes_order true [[3; 1; 2]; [2]; []; [1; 2]]%nat = Ok [3; 1; 2]%nat.
+Proof. exact includes_order_examples. Qed.
+
 (* yanglib_roundtrip: under rt_ok (same sources; every import means a module of the context, an import without
    revision-date only names a module with a single revision = imports_pinned; acyclic imports; import-only modules
    are reachable from implemented ones; the rebuilding context c0 may already hold modules of the original, the
